@@ -341,13 +341,16 @@ def shrinks(sc):
 
 
 def _trig_proxy_read(sc, res):
-    return sc["config"]["path"] in ("fwd", "tunnel") and any(a[0] == "read" for a in res.info.get("attempts", []))
+    # the recorded defect: behind a proxy, a *reset or EOF* while waiting for the response (http.client has closed the connection by the
+    # time the error is classified).  Read time-outs and unparsable replies are classified correctly on this tree.
+    return sc["config"]["path"] in ("fwd", "tunnel") and any(a[0] == "read" and a[1] in ("eof", "rst") for a in res.info.get("attempts", []))
 
 
 def _neut_proxy_read(sc):
-    # same histories without a proxy in the path
-    sc["config"]["path"] = "direct" if sc["config"]["path"] == "fwd" else "direct_tls"
-    sc.pop("connects", None)
+    # the same history with every such connection loss turned into silence (a read time-out), proxy kept
+    for ex in sc["exchanges"]:
+        if ex.get("k") in ("eof", "rst"):
+            ex["k"] = "stall"
     return sc
 
 
